@@ -224,3 +224,31 @@ ZOO += [
     ('C03-sine-phase', 'C03', 'sim.py', "             np.deg2rad(velocity_change_phase_offset))", "             np.deg2rad(velocity_change_phase_offset) * (1 + 1e-4))"),
     ('C03-accel-frame', 'C03', 'sim.py', "        accel = util.mv_prod(mat_ib, v_i_spline(time, 1) - g_i, at=True)", "        accel = util.mv_prod(mat_ib, v_i_spline(time, 1) - g_i * (1 + 1e-4), at=True)"),
 ]
+ZOO += [
+    # ---- C11 feedforward filter vs exact estimator
+    ('C11-q-not-squared', 'C11', 'filters.py', "G @ np.diag(q**2) @ G.transpose()", "G @ np.diag(q**2 * (1 + (np.arange(len(q)) >= len(q) - accel_model.n_noises) * (q - 1))) @ G.transpose()"),
+    ('C11-noise-blocks', 'C11', 'filters.py', "    q = np.hstack((gyro_model.v, accel_model.v, gyro_model.q, accel_model.q))", "    q = np.hstack((gyro_model.v, accel_model.v, accel_model.q, gyro_model.q)) if gyro_model.n_noises == accel_model.n_noises else np.hstack((gyro_model.v, accel_model.v, gyro_model.q, accel_model.q))"),
+    ('C11-x-not-propagated', 'C11', 'filters.py', "        x = Phi @ x\n        P = Phi @ P @ Phi.transpose() + Qd\n        index = next_index", "        x = x + (Phi - np.eye(len(x))) @ x * (1 - 1e-3)\n        P = Phi @ P @ Phi.transpose() + Qd\n        index = next_index"),
+    ('C11-sd-no-T', 'C11', 'filters.py', "    trajectory_sd = pd.DataFrame(\n        np.diagonal(util.mm_prod_symmetric(T, P_ins), axis1=1, axis2=2) ** 0.5,",
+     "    trajectory_sd = pd.DataFrame(\n        np.diagonal(util.mm_prod_symmetric(T * (1 + 1e-4 * (np.arange(9)[:, None] == 8)), P_ins), axis1=1, axis2=2) ** 0.5,"),
+    ('C11-time-step', 'C11', 'filters.py', "        Phi, Qd = _compute_error_propagation_matrices(\n            pva_average, gyro_average, accel_average, time_delta,\n            error_model, gyro_model, accel_model)\n        x = Phi @ x",
+     "        Phi, Qd = _compute_error_propagation_matrices(\n            pva_average, gyro_average, accel_average, min(time_delta, time_step),\n            error_model, gyro_model, accel_model)\n        x = Phi @ x"),
+    ('C11-walk-accel-into-gyro', 'C11', 'filters.py', "    G[accel_block, accel_noise_block] = accel_model.G\n", "    G[accel_block, accel_noise_block] = accel_model.G[:, ::-1]\n"),
+    ('C11-output-noise-J', 'C11', 'filters.py', "    G[ins_block, accel_out_noise_block] = Fia @ accel_model.J\n", "    G[ins_block, accel_out_noise_block] = Fia @ accel_model.J * 0.999\n"),
+    ('C11-init-cov', 'C11', 'filters.py', "    P[accel_block, accel_block] = accel_model.P\n\n    return P", "    P[accel_block, accel_block] = accel_model.P\n    P[ins_block, ins_block][np.arange(2), np.arange(2)] *= 1.0\n    P[0, 1] = P[1, 0] = 1e-3 * np.sqrt(P[0, 0] * P[1, 1])\n\n    return P"),
+]
+ZOO += [
+    # ---- C04 error model vs measured strapdown error growth
+    ('C04-earth-rate-pos-sign', 'C04', 'error_model.py', "        F[np.ix_(samples, self.PHI, self.DR)] = util.mm_prod(util.skew_matrix(Omega_n),\n                                                             R)",
+     "        F[np.ix_(samples, self.PHI, self.DR)] = -util.mm_prod(util.skew_matrix(Omega_n),\n                                                              R)"),
+    ('C04-vertical-factor', 'C04', 'error_model.py', "F[:, self.DV3, self.DR3] = 2 * earth.gravity(trajectory.lat, 0) / earth.A", "F[:, self.DV3, self.DR3] = earth.gravity(trajectory.lat, 0) / earth.A"),
+    ('C04-coriolis', 'C04', 'error_model.py', "-util.skew_matrix(2 * Omega_n + rho_n)", "-util.skew_matrix(Omega_n + rho_n)"),
+    ('C04-phi-phi-RV', 'C04', 'error_model.py', "        F[np.ix_(samples, self.PHI, self.PHI)] = (-util.skew_matrix(rho_n + Omega_n) +\n                                                  util.mm_prod(R, V_skew))",
+     "        F[np.ix_(samples, self.PHI, self.PHI)] = -util.skew_matrix(rho_n + Omega_n)"),
+    ('C04-Bgyro-DV', 'C04', 'error_model.py', "B_gyro[np.ix_(samples, self.DV, [0, 1, 2])] = util.mm_prod(V_skew, mat_nb)", "B_gyro[np.ix_(samples, self.DV, [0, 1, 2])] = util.mm_prod(mat_nb, V_skew)"),
+    ('C04-propagate-left', 'C04', 'error_model.py', "    Phi = 0.5 * (Fi[1:] + Fi[:-1]) * dt.reshape(-1, 1, 1)", "    Phi = 0.5 * (Fi[1:] + Fi[:-1]) * dt.reshape(-1, 1, 1) * (1 + 0.05 * np.eye(Fi.shape[-1], k=3))"),
+    ('C04-dr-phi', 'C04', 'error_model.py', "        F[np.ix_(samples, self.DR, self.PHI)] = V_skew\n", "        F[np.ix_(samples, self.DR, self.PHI)] = -V_skew\n"),
+    ('C04-phi-dv', 'C04', 'error_model.py', "        F[np.ix_(samples, self.PHI, self.DV)] = R\n", "        F[np.ix_(samples, self.PHI, self.DV)] = R.transpose(0, 2, 1) if R.ndim == 3 else R.T\n"),
+    ('C04-propagate-sensor', 'C04', 'error_model.py', "    delta_sensor = 0.5 * (gyro_error[1:] + gyro_error[:-1] +\n                          accel_error[1:] + accel_error[:-1])",
+     "    delta_sensor = 0.5 * (gyro_error[1:] + gyro_error[:-1] +\n                          accel_error[1:] - accel_error[:-1]) + accel_error[:-1] * 0.9"),
+]
